@@ -671,6 +671,43 @@ func runAnnotations(p *Program, r *RuleResult) {
 		d = "the spawned body is typed at the annotation without a preceding successful well-formedness check of the mode-completed annotation"
 	}
 	r.add(fnName(nm.Fn), "annotation:cut annotation", v, p.instrPos(addCall), d)
+	// the check sees the annotation the user wrote (mode-completed), not a replacement:
+	// nothing is stored into the annotation between completing it and checking it
+	var checks []*ssa.Call
+	for _, c := range p.callsIn(nm.Fn) {
+		call, isCall := c.(*ssa.Call)
+		if !isCall || call.Common().StaticCallee() == nil || !p.callsWellFormedness(call.Common().StaticCallee(), 0) {
+			continue
+		}
+		if len(view.mayReachFrom(addCall, nil, func(in ssa.Instruction) bool { return in == ssa.Instruction(call) }, nil)) > 0 {
+			checks = append(checks, call)
+		}
+	}
+	bad := ""
+	for _, b := range view.Blocks() {
+		for _, in := range view.Instrs(b) {
+			st, isSt := in.(*ssa.Store)
+			if !isSt || !strings.HasSuffix(accessPath(st.Addr), ".new_name_c.Type") {
+				continue
+			}
+			afterAdd := len(view.mayReachFrom(addCall, nil, func(x ssa.Instruction) bool { return x == ssa.Instruction(st) }, nil)) > 0
+			if !afterAdd {
+				continue
+			}
+			for _, chk := range checks {
+				if len(view.mayReachFrom(st, nil, func(x ssa.Instruction) bool { return x == ssa.Instruction(chk) }, nil)) > 0 {
+					bad = fmt.Sprintf("the annotation is overwritten at %s after its modes were completed and before it is checked at %s: what is validated is the replacement (an unfolded definition), so the mode written on the annotation itself is never checked", p.instrPos(st), p.instrPos(chk))
+				}
+			}
+		}
+	}
+	if len(checks) > 0 {
+		if bad != "" {
+			r.add(fnName(nm.Fn), "annotation:cut annotation checked as written", Violated, p.instrPos(addCall), bad)
+		} else {
+			r.add(fnName(nm.Fn), "annotation:cut annotation checked as written", Holds, p.instrPos(addCall), "nothing replaces the annotation between mode completion and the well-formedness check")
+		}
+	}
 }
 
 func (p *Program) callsWellFormedness(fn *ssa.Function, depth int) bool {
